@@ -2293,6 +2293,14 @@ def run_umethod(case, obs, fields, fail):
     before = [snap(v) for v in ins]
     out_before = snap(outf) if outf is not None else None
     out_arr0 = outf.array.copy() if outf is not None else None
+    if outf is not None:
+        # the out field has been USED before the call (anything it might keep from its old values is in place now)
+        with np.errstate(all="ignore"):
+            for nm in ("norm", "orientation"):
+                try:
+                    getattr(outf, nm).array
+                except Exception:
+                    pass
     err = None
     with np.errstate(all="ignore"):
         try:
@@ -2321,6 +2329,21 @@ def run_umethod(case, obs, fields, fail):
         obs["mutable_leaf"] = case["out"]
         written = "array bytes" in changed
         obs["tags"].append("out:" + ("written" if written else "untouched") + ("-then-refused" if (written and err is not None) else ""))
+        if written:
+            # a field is its array: everything derived from the out field is what a fresh field with the same array gives
+            with np.errstate(all="ignore"):
+                try:
+                    fresh = df.Field(outf.mesh, nvdim=outf.nvdim, value=outf.array.copy(), valid=outf.valid.copy(), dtype=outf.array.dtype,
+                                     vdims=outf.vdims, vdim_mapping=dict(outf.vdim_mapping), unit=outf.unit)
+                    for nm in ("norm", "orientation"):
+                        a1, a2 = getattr(outf, nm).array, getattr(fresh, nm).array
+                        if not np.array_equal(a1, a2, equal_nan=True):
+                            fail(f"OUT: after np.{uf.__name__}(..., out=h), h.{nm} is not the {nm} of the values h now holds "
+                                 f"(e.g. {a1.reshape(-1)[:3].tolist()} vs {a2.reshape(-1)[:3].tolist()})")
+                except core.SkipCase:
+                    raise
+                except Exception:
+                    pass
     if err is not None:
         obs["res"] = "err"
         obs["tags"].append("refused:" + type(err).__name__)
